@@ -344,7 +344,7 @@ def run(ctx):
 
 
 MANIFEST_ENTRY = {
-    "technique": "static analysis: symbolic evaluation of both plural generators and comparison of their selection skeletons (rules/genplurals.py), sibling comparison of the range generators and formatter families (syn, expanded templates), selector-table extraction of the t! family, MIR return-value summaries (py/mirsum.py) showing wrappers and scope helpers to be identities on locale and key",
-    "level_text": "Structural: the two back-ends are compared construct by construct on every run (an asymmetry is what makes flavours diverge), the macro selector tables are extracted, and wrappers / scoping are shown to be identities on locale and key. Rendered strings are not compared.",
+    "technique": "static analysis: symbolic evaluation of both plural generators and comparison of their selection skeletons (rules/genplurals.py), sibling comparison of the range generators and formatter families (syn, expanded templates), abstract evaluation of the t! input selector (get_key) to token text, selector-table extraction of the output flavours, MIR return-value summaries (py/mirsum.py) showing wrappers, scope helpers and every Literal::into_str impl to be identities / the Display text, the emission clauses of C01.R4 (each back-end emits every piece, incl. the tuple regrouping of the view back-end)",
+    "level_text": "Structural: the two back-ends are compared construct by construct on every run (an asymmetry is what makes flavours diverge) and each is shown to emit every piece; the macro selector tables are evaluated / extracted; wrappers, scoping and the string flavour of plain literals are shown to be identities on locale, key and Display text. Rendered strings are not compared.",
     "level_note": "Trusted: leptos rendering equals Display for the value types. Not decided: HTML vs Display text of a concrete value.",
 }
